@@ -32,9 +32,10 @@ func cmdC06(args []string) error {
 	lens := []int{0, 1, 15, 16, 17, 31, 32, 64}
 	if *tier == "thorough" {
 		lens = nil
-		for i := 0; i <= 64; i++ {
+		for i := 0; i <= 100; i++ {
 			lens = append(lens, i)
 		}
+		lens = append(lens, 127, 128, 129, 255, 256, 257, 511, 512, 513, 1024)
 	}
 	for _, et := range allEtypes {
 		e := mustEtype(et)
